@@ -420,3 +420,6 @@ PROP = with_src(C05(), share=10,
                           "Src.SpecifierSet.__eq___eq_model", "Src.SpecifierSet.__eq___str", "Src.SpecifierSet.__eq___spec",
                           "Src.SpecifierSet.__hash___eq_model", "Src.SpecifierSet.__len___eq_model",
                           "Src.SpecifierSet.__str___eq_model", "Src.SpecifierSet.__iter___eq_model", "Src.ordered_of_perm"])
+# x7: `SpecifierSet.__repr__` (ASCII text; every iteration order) against SSet.SpecSet.repr
+PROP = with_src(PROP, share=10, functions=["SpecifierSet.__repr__"], module=["PkgProofs.Props.Src.X7Spec"],
+                theorems=["Src.SpecifierSet.__repr___translated", "Src.SpecifierSet.__repr___eq_model"])
